@@ -12,7 +12,7 @@
 From Coq Require Import List ZArith Bool Arith String.
 Import ListNotations.
 Require Import C14.Types C14.gen.Ctors C14.Model C14.Wf C14.ProofsAssoc C14.ProofsRebuild C14.AllocPolicy
-  C14.gen.AllocSites C14.ProofsTables.
+  C14.gen.AllocSites C14.ProofsTables C14.Conv C14.ProofsConv C14.ProofsSpec C14.ProofsFinal.
 
 (* ---------------------------------------------------------------- generated tables (finite; re-proved per run) *)
 
@@ -74,6 +74,53 @@ Theorem C14_chol_upper_refuted :
   exists o, wfb o = true /\ no_otherb o = true /\ rebuild F32 o <> Some o.
 Proof. exact chol_upper_refuted. Qed.
 
+(* the keyword arguments of a constructor call may come in any order: only the name -> value function matters
+   (clone / to / type build dicts in their own iteration order, the representation tree passes differentiable kwargs first) *)
+Theorem C14_ctor_kwargs_order_irrelevant : forall defdt c ch dn nd kw,
+  node_okb c ch dn nd = true -> NoDup (keys kw) -> (forall k, lookup k kw = lookup k (dkw_of ch dn ++ lift nd)) ->
+  ctor defdt c (args_of ch dn) kw = Some (AOp c ch dn nd (dflt_attrs defdt c)).
+Proof. intros defdt c ch dn nd kw H. apply ctor_stored_gen; [apply spec_ok_all|exact H]. Qed.
+
+(* ---------------------------------------------------------------- clone / detach / cpu / to / type / double / float *)
+
+(* meth_call transcribes the library's methods: every node is rebuilt through its class constructor, nested operators
+   are converted by their own (possibly overridden) methods, type() clones before it casts, fresh storages come from a
+   counter.  Conv.conv is a structural specification without constructors, fuel or counters.  On every well-formed
+   operator tree without lossy flags (any classes, nesting depth, arities, kwargs layouts), under the side conditions
+   [safeb] (to(<floating dtype>) reaches integer / boolean tensors only through the guarded positions of Interpolated /
+   Masked operators, every nested operator reports a floating dtype), whatever the method returns IS the specification *)
+Theorem C14_convert_refines_spec : forall defdt fuel m o n o' n',
+  wfb o = true -> losslessb defdt o = true -> safeb m o = true ->
+  meth_call defdt fuel m o n = Some (o', n') -> strip o' = conv defdt m o /\ (n <= n')%nat.
+Proof. exact convert_refines_spec. Qed.
+
+(* ... hence: same class tree, same keyword arguments and flags (orientation flags, concatenation axis, repeat counts,
+   block layout, other non-tensor arguments; only the dtype / device bookkeeping entries may change), same VALUE in
+   every leaf; floating leaves get the target dtype, integer and boolean leaves (interpolation indices, masks) keep
+   theirs; requires_grad is kept leaf by leaf and dropped everywhere by detach *)
+Theorem C14_convert_preserves : forall defdt fuel m o n o' n',
+  wfb o = true -> losslessb defdt o = true -> safeb m o = true ->
+  meth_call defdt fuel m o n = Some (o', n') ->
+  vshape o' = vshape o /\ map obs (leaves o') = map (cast_rule m) (leaves o).
+Proof. exact convert_preserves. Qed.
+
+(* clone() gives every leaf a storage of its own: the fresh identities n, n+1, ... in leaf order; nothing is shared
+   with the original (whose storages are numbered below n) nor between two leaves of the clone *)
+Theorem C14_clone_shares_nothing : forall defdt fuel o n o' n',
+  wfb o = true -> losslessb defdt o = true ->
+  meth_call defdt fuel MClone o n = Some (o', n') ->
+  map tid (leaves o') = seq n (List.length (leaves o)) /\ n' = (n + List.length (leaves o))%nat.
+Proof. exact clone_fresh. Qed.
+
+(* the known finding at the level of the model, on the pinned constructor signature: to(<floating dtype>) of a
+   permutation operator casts perm / inv_perm and the constructor rejects them - the call cannot succeed *)
+Theorem C14_perm_to_float_refuted : forall defdt f d dev p q nd at_ n,
+  spec_of CPermutation = {| cs_npos := 2; cs_varargs := false;
+                            cs_named := [(k_validate_args, Some (VBool true), PKw)]; cs_varkw := false |} ->
+  is_float d = true ->
+  meth_call defdt (S f) (MTo (Some d) dev) (AOp CPermutation [ATensor p; ATensor q] [] nd at_) n = None.
+Proof. exact perm_to_float_raises. Qed.
+
 (* ---------------------------------------------------------------- the hypotheses are satisfiable *)
 
 (* Sum( Triangular(Dense t0, upper=True), Kernel(x1, x2, alpha=<tensor>, covar_func=f, ..., square=True), extra=3 ) *)
@@ -89,3 +136,17 @@ Example C14_hypotheses_satisfiable :
   wfb ex_nested = true /\ no_otherb ex_nested = true /\ losslessb F32 ex_nested = true /\
   rebuild F32 ex_nested = Some ex_nested.
 Proof. vm_compute. repeat split; reflexivity. Qed.
+
+(* Interpolated( Sum( Dense, Diag ), left indices (int64), left values, right indices, right values ).double():
+   the side conditions hold, the conversion succeeds and does what the specification says *)
+Definition ex_interp : arg :=
+  AOp CInterpolated
+    [AOp CSum [AOp CDense [ATensor (T 0 0 F32 true)] [] [] []; AOp CDiag [ATensor (T 1 1 F32 false)] [] [] []] [] [] [];
+     ATensor (T 2 2 I64 false); ATensor (T 3 3 F32 true); ATensor (T 4 4 I64 false); ATensor (T 5 5 F32 false)] [] [] [].
+Example C14_convert_hypotheses_satisfiable :
+  wfb ex_interp = true /\ losslessb F64 ex_interp = true /\
+  safeb (MType F64) ex_interp = true /\ safeb (MTo (Some F64) None) ex_interp = true /\
+  (exists o' n', meth_call F64 8 (MType F64) ex_interp 6 = Some (o', n') /\
+                 map obs (leaves o') = [(0, F64, true); (1, F64, false); (2, I64, false); (3, F64, true); (4, I64, false); (5, F64, false)]%nat) /\
+  (exists o' n', meth_call F64 8 (MTo (Some F64) None) ex_interp 6 = Some (o', n')).
+Proof. vm_compute. repeat split; try reflexivity; eexists; eexists; try split; reflexivity. Qed.
